@@ -171,7 +171,8 @@ func (r *Route) TargetConfig(t *Target, addWeight bool) string {
 		s += fmt.Sprintf(" weight %.4f", t.FixedWeight)
 	}
 	if len(t.Tags) > 0 {
-		s += fmt.Sprintf(" tags %q", strings.Join(t.Tags, ","))
+		// the parser knows no escapes inside the quotes: write the tags as they are
+		s += " tags \"" + strings.Join(t.Tags, ",") + "\""
 	}
 	if len(t.Opts) > 0 {
 		var keys []string
